@@ -10,7 +10,7 @@ import rewriters as R
 class C03(Prop):
     id = "C03"
     driver = "Compose"
-    lean_modules = ["Pfb.C03.Props", "Pfb.C03.Lines", "Pfb.C03.Idem"]
+    lean_modules = ["Pfb.C03.Props", "Pfb.C03.Lines", "Pfb.C03.Idem", "Pfb.C04.NoUnusedLeft", "Pfb.C04.NoUnusedLeftC"]
     theorems = [
         "Pfb.C03.C03_future_first",
         "Pfb.C03.C03_future_joins_future_block",
@@ -36,6 +36,11 @@ class C03(Prop):
         "Pfb.C03.addImport_of_alreadyPresent",
         "Pfb.C03.C03_add_then_present",
         "Pfb.C03.C03_add_idem",
+        # the remove stage is a fixed point of the analysis (PyCore models): fragment B outright, fragment C under rebindOK;
+        # the excluded family is the listed finding D69
+        "Pfb.C04.C04_no_unused_left_fragB",
+        "Pfb.C04.C04_no_unused_left_fragC_partial",
+        "Pfb.C04.witness_deferred_names_fragC",
     ]
     anchors = [
         ("lib/python/pyflyby/_imports2s.py", "SourceToSourceFileImportsTransformation.select_import_block_by_closest_prefix_match"),
@@ -191,7 +196,39 @@ class C03(Prop):
         if not case["text"].endswith("\n"):
             acc["no_final_newline"] = acc.get("no_final_newline", 0) + 1
 
-    families = {"lone_cr": R.fam_lone_cr, "backslash_line": R.fam_backslash_line, "deep_nesting": R.fam_deep_nesting}
+    families = {"lone_cr": R.fam_lone_cr, "backslash_line": R.fam_backslash_line, "deep_nesting": R.fam_deep_nesting,
+                "dotted_imports_rebound_after_deferred_read": lambda case, fl: fam_d69(case, fl)}
+
+
+def fam_d69(case, fl):
+    """D69: the second pass removes one more import.  Narrow family: a def/lambda body reads a name n; later the module
+    holds two (or more) plain dotted imports of the package n (`import n.x`, `import n.x.y`) and, after them, a
+    module-level store that rebinds n.  (Found by the proof attempt C04_no_unused_left_fragC: witness_deferred_names_fragC.)"""
+    if fl.get("what") != "not a fixed point" or case.get("tool") != "tidy":
+        return False
+    try:
+        tree = ast.parse(case["text"] if case["text"].endswith("\n") else case["text"] + "\n")
+    except (SyntaxError, ValueError):
+        return False
+    deferred = set()
+    for n in ast.walk(tree):
+        if isinstance(n, (ast.FunctionDef, ast.AsyncFunctionDef, ast.Lambda)):
+            body = n.body if isinstance(n.body, list) else [n.body]
+            for b in body:
+                deferred.update(x.id for x in ast.walk(b) if isinstance(x, ast.Name) and isinstance(x.ctx, ast.Load))
+    dotted = {}
+    for st in tree.body:
+        if isinstance(st, ast.Import):
+            for a in st.names:
+                if a.asname is None and "." in a.name:
+                    dotted.setdefault(a.name.split(".")[0], []).append(st.lineno)
+    for n, lines in dotted.items():
+        if len(lines) >= 2 and n in deferred:
+            for st in tree.body:
+                if st.lineno > max(lines) and any(isinstance(x, ast.Name) and isinstance(x.ctx, ast.Store) and x.id == n
+                                                 for x in ast.walk(st)):
+                    return True
+    return False
 
 
 def _real_conflict(case):
